@@ -969,7 +969,15 @@ def monitors(pid, spec, G, total, tol=None, multi=False, cover=None):
     if pid == 'C03': return mon_c03(spec, G, tol)
     if pid == 'C04': return mon_c04_multi(spec, G, tol) if multi else mon_c04(spec, G, tol, cover=cover)
     if pid == 'C05': return mon_c05(spec, G, total, tol, check_rev=not multi)
-    if pid == 'C06': return mon_c06(spec, G, tol)
+    if pid == 'C06':
+        # the documented sequence of events implies every consequence checked for C01-C05 (a shipment with lead time 0 is received in the
+        # period it is sent, orders follow the observed position, ...): all monitors run, so that a departure from the sequence is reported
+        # with a concrete state variable that contradicts the documentation
+        bad = mon_c06(spec, G, tol)
+        for f in (mon_c01, mon_c02, mon_c03): bad += [x for x in f(spec, G, tol) if x not in bad]
+        if not multi:
+            bad += list(mon_c04(spec, G, tol)) + list(mon_c05(spec, G, total, tol))
+        return bad
     raise ValueError(pid)
 
 
@@ -1127,6 +1135,12 @@ def explore(chk, pid, n, n_multi=0, do_model=True):
             d = simlib.compare(impl, m, fields=FIELDS[pid])
             if d:
                 chk.mismatch('%d observable(s) of %s differ, first (period, node, field, implementation, model) = %s' % (len(d), pid, jsonable(d[:4])), c)
+                if pid == 'C06':
+                    # C06 IS the statement that the trajectory equals the documented-sequence reference (Sim/Model.v): the case is a failing input,
+                    # replayable with --replay (which re-evaluates the reference for this case)
+                    c2 = dict(c); c2['reference'] = True
+                    _fail(chk, 'sequence-of-events|trajectory-differs-from-reference|%s' % str(d[0][2]).split('[')[0], 'period %s node %s: %s is %s in the implementation but %s in the documented-sequence reference (Sim/Model.v); %d field(s) differ'
+                          % (d[0][0], d[0][1], d[0][2], jsonable(d[0][3]), jsonable(d[0][4]), len(d)), c2)
     for c, impl, cov in results:
         chk.count('kind=%s' % c['kind']); chk.count('nodes=%d' % len(c['ids'])); chk.count('malformed=%s' % c['malformed'])
         chk.count('horizon=%s' % ('<=12' if c['T'] <= 12 else '<=30' if c['T'] <= 30 else '<=60'))
@@ -1189,6 +1203,12 @@ def replay_property(chk, pid, rp, extra_replay=None):
         c = simlib.case_from_json(c)
         impl, cov = check_single(chk, pid, c)
         print('branches:', sorted(cov))
+        if c.get('reference') and impl is not None and ensure_model(chk):
+            m = simlib.run_model([(c, impl['struct'])], name=pid.lower() + 'rp', shard=1)[0]
+            d = simlib.compare(impl, m, fields=FIELDS[pid])
+            if d:
+                _fail(chk, 'sequence-of-events|trajectory-differs-from-reference|%s' % str(d[0][2]).split('[')[0], 'period %s node %s: %s is %s in the implementation but %s in the documented-sequence reference; %d field(s) differ'
+                      % (d[0][0], d[0][1], d[0][2], jsonable(d[0][3]), jsonable(d[0][4]), len(d)), c)
     elif mode == 'multi':
         check_multi(chk, pid, multi_from_json(c))
     elif mode == 'probe':
